@@ -83,7 +83,7 @@ theorem lod_from_json_code (truth : Term → Bool) :
       if truth (Term.app "isinstance" [data, Term.sym "list"]) then
         if truth (Term.sym "keys") then
           Out.ret [Term.app "for" [Term.sym "item", data, Term.app "block"
-                     [Term.app "for" [Term.sym "key", Term.app "Sub" [Term.app "set" [Term.sym "item"], Term.app "set" [Term.sym "keys"]],
+                     [Term.app "for" [Term.sym "key", Term.app "Sub" [Term.app "set()" [Term.sym "item"], Term.app "set()" [Term.sym "keys"]],
                         Term.app "block" [Term.app "del" [Term.app "getitem" [Term.sym "item", Term.sym "key"]]]]]],
                    castItems data] (Term.app "cls" [data])
         else Out.ret [castItems data] (Term.app "cls" [data])
@@ -99,11 +99,11 @@ theorem lod_from_json_code (truth : Term → Bool) :
 theorem lod_read_csv_code (truth : Term → Bool) :
     ListOfDicts_read_csv truth =
       let f := Term.app "with" [Term.app "util.xopen" [Term.sym "path", Term.sym "'rt'", Term.app "=encoding" [Term.sym "encoding"]]]
-      let rows := Term.app "list" [Term.app "csv.reader" [f, Term.app "=dialect" [Term.sym "'unix'"], Term.app "=delimiter" [Term.sym "sep"]]]
+      let rows := Term.app "list()" [Term.app "csv.reader" [f, Term.app "=dialect" [Term.sym "'unix'"], Term.app "=delimiter" [Term.sym "sep"]]]
       if truth rows then
         let width := Term.app "len" [Term.app "getitem" [rows, Term.int 0]]
         let names := if truth (Term.sym "header") then Term.app ".pop" [rows, Term.int 0] else Term.app "util.generate_colnames" [width]
-        let items (ns : Term) := Term.app "cls" [Term.app "GeneratorExp" [Term.app "dict" [Term.app "zip" [ns, Term.sym "x"]],
+        let items (ns : Term) := Term.app "cls" [Term.app "GeneratorExp" [Term.app "dict()" [Term.app "zip" [ns, Term.sym "x"]],
           Term.app "in" [Term.sym "x", rows, Term.app "if" []]]]
         if truth (Term.sym "keys") then
           let drop := Term.app "ListComp" [Term.sym "i", Term.app "in" [Term.sym "i", Term.app "range" [width],
